@@ -258,6 +258,15 @@ theorem returns_to_zero (limit : Nat) (progs : List (List Op)) (sched : List Nat
   simp only at this
   omega
 
+/-- no underflow, any schedule: per pool, the bytes released never exceed the bytes granted, and the
+tracked usage never exceeds what was granted -/
+theorem released_le_allocd (limit : Nat) (progs : List (List Op)) (sched : List Nat) (q : Nat) :
+    (run (init limit progs) sched).released.getD q 0 ≤ (run (init limit progs) sched).allocd.getD q 0 ∧
+    (run (init limit progs) sched).used.getD q 0 ≤ (run (init limit progs) sched).allocd.getD q 0 := by
+  have := accounting_any_schedule limit progs sched q
+  simp only at this
+  omega
+
 /-- HARD LIMIT, sequential part (full for one thread): whatever the program and however many
 atomic steps have been taken, tracked usage is within the limit. -/
 theorem seq_safe (limit : Nat) (prog : List Op) (n : Nat) :
